@@ -134,31 +134,42 @@ func (c *Ctx) c05Sites(rp map[*ssa.Function]bool) (sites []readSite) {
 			}
 		}
 	}
-	// a read whose buffer is handed in by the (only) caller is a read of the caller's buffer: lift the site
-	// to that call, so that a full-read helper counts where it is used
-	for i := range sites {
-		for d := 0; d < 2; d++ {
-			s := &sites[i]
+	// a read whose buffer is handed in by the caller is a read of the caller's buffer: lift the site to the
+	// helper's call sites (each of them, when a shared full-read helper serves the header and the body), so
+	// that the helper counts where it is used
+	for d := 0; d < 2; d++ {
+		var next []readSite
+		for _, s := range sites {
 			bp, isP := flow.Peel(s.buf).(*ssa.Parameter)
-			if s.buf == nil || !isP || bp.Parent() != s.fn {
-				break
+			if s.buf == nil || !isP || bp.Parent() != s.fn || s.fn.Object() != nil && s.fn.Object().Exported() {
+				next = append(next, s)
+				continue
 			}
-			cs := c.uniqueSite(s.fn)
-			if cs == nil {
-				break
+			css := c.librarySites(s.fn)
+			if len(css) == 0 || len(css) > 4 {
+				next = append(next, s)
+				continue
 			}
 			// the minimum, if any, must be expressible at the call site
-			if s.min != nil {
-				if x, ok := builtinOf(s.min, "len"); ok && flow.Peel(x) == ssa.Value(bp) {
-					s.min = nil // min == len(buffer) inside the helper: a full read of whatever is handed in
-				} else if _, isK := flow.ConstInt(s.min); !isK {
-					break
+			min := s.min
+			if min != nil {
+				if x, ok := builtinOf(min, "len"); ok && flow.Peel(x) == ssa.Value(bp) {
+					min = nil // min == len(buffer) inside the helper: a full read of whatever is handed in
+				} else if _, isK := flow.ConstInt(min); !isK {
+					next = append(next, s)
+					continue
 				}
 			}
-			s.inner = append(s.inner, s.call)
-			s.buf = cs.Common().Args[paramIndex(s.fn, bp)]
-			s.fn, s.call = cs.Parent(), cs
+			for _, cs := range css {
+				ls := s
+				ls.min = min
+				ls.inner = append(append([]ssa.CallInstruction{}, s.inner...), s.call)
+				ls.buf = cs.Common().Args[paramIndex(s.fn, bp)]
+				ls.fn, ls.call = cs.Parent(), cs
+				next = append(next, ls)
+			}
 		}
+		sites = next
 	}
 	for _, s := range sites {
 		key := fmt.Sprintf("%s:%s", fname(s.fn), s.kind)
